@@ -31,6 +31,8 @@ def run(model, rep, tier):
     r2_switch(ctx, rep)
     r3_r4_guard_and_target(ctx, rep)
     r5_pruning(ctx, rep)
+    from . import robust
+    robust.asserts_have_no_effects(ctx, rep, 'C15.R20', 'C15')
     rep.units['cfg'] = ctx.cfg_stats
 
 
